@@ -64,7 +64,8 @@ theorem RecOk.toShape {c : Writer.Col} {codec : Nat} {r : Writer.PageRec} (h : R
 
 /-- the decoded page a record stands for -/
 def decodedOf (c : Writer.Col) (r : Writer.PageRec) : Decoded :=
-  ⟨if c.maxDef > 0 then r.src.defs else List.replicate r.src.numValues 0, List.replicate r.src.numValues 0, r.src.values⟩
+  ⟨if c.maxDef > 0 then r.src.defs else List.replicate r.src.numValues 0,
+   if c.maxRep > 0 then r.src.reps else List.replicate r.src.numValues 0, r.src.values⟩
 
 theorem asI32_mod (x : Nat) (h : x < 2 ^ 32) : ((FileReal.asI32 x) % 4294967296).toNat = x := by
   unfold FileReal.asI32
@@ -430,6 +431,10 @@ theorem cursorPage_okS (c : Writer.Col) (r : Writer.PageRec) (hr : RecShape c r)
   have hrows := decodedOf_rowsS c r hr
   have hsh := hr.shape
   have hpos := hr.pos
+  have hrl : (if c.maxRep > 0 then r.src.reps else List.replicate r.src.numValues 0).length = r.src.numValues := by
+    by_cases hm : c.maxRep > 0
+    · simp only [hm, if_true]; exact (hsh.repsLen hm).1
+    · simp only [hm, if_false, List.length_replicate]
   unfold Carquet.Proofs.Cursor.PageOk cursorPage
   simp only
   by_cases hd : c.maxDef > 0
@@ -439,7 +444,7 @@ theorem cursorPage_okS (c : Writer.Col) (r : Writer.PageRec) (hr : RecShape c r)
     rw [if_pos hd] at hcount
     refine ⟨?_, ?_, ?_, ?_⟩
     · intro h0; rw [h0] at hrows; simp at hrows; omega
-    · simp only [decodedOf, if_pos hd, List.length_replicate, hlen]
+    · simp only [decodedOf, if_pos hd, hlen]; exact hrl
     · simp only [decodedOf, Carquet.Proofs.Cursor.nn, hd1]; exact hcount
     · intro d hdm; simp only [decodedOf, if_pos hd] at hdm; rw [hd1]; exact hsh.defs01 d hdm
   · have hd0 : c.maxDef = 0 := by omega
@@ -447,7 +452,7 @@ theorem cursorPage_okS (c : Writer.Col) (r : Writer.PageRec) (hr : RecShape c r)
     rw [if_neg hd] at hcount
     refine ⟨?_, ?_, ?_, ?_⟩
     · intro h0; rw [h0] at hrows; simp at hrows; omega
-    · simp only [decodedOf, if_neg hd, List.length_replicate]
+    · simp only [decodedOf, if_neg hd, List.length_replicate]; exact hrl
     · simp only [decodedOf, Carquet.Proofs.Cursor.nn, hd0]
       rw [if_neg (by omega), hcount, List.countP_replicate]; simp
     · intro d hdm; simp only [decodedOf, if_neg hd, List.mem_replicate] at hdm; omega
